@@ -64,6 +64,16 @@ Unit-specific hooks (attributes of pygal.Ext, on top of the ones pygal.py docume
   [srclabels] spec key "state_var": the function is translated for the final content of that local (a mutated object);
                               a bare `return` is `return_v <its current content>` (the caller supplies the same at the
                               fall-through end and lists the name as live)
+  multi_except             [srcrun] True: a try statement may have several except clauses (every class of
+                              except_classes then needs a predicate; "Exception" defaults to `is_exception`); translated
+                              to try_except_on / try_else_on with the disjunction of the predicates and an if-chain
+                              over the handlers (first matching clause wins)
+  expr(fn, node, env)      [srcrun] see pygal.Ext
+[srcrun] A variable whose only assignment in a try-suite is the suite's last statement keeps its old binding in the
+handlers (an exception means that assignment did not happen).  A local that holds None on one path and a T on another
+where the paths meet (`x = None ... if c: x = f()`) is an Optional[T]: the translator notices the clash, records
+x : Optional[T] and translates the function again with None / a T coerced to `None` / `Some v` at every assignment of x
+(by name-independent inference; the function spec key "locals": {name: Ty} can declare such types up front).
 Function spec keys on top of pygal's: "ret" (Ty: the function returns a value), "vararg" / "kwarg" ((name, Ty): the
 function has *name / **name, handed to the Gallina function as ordinary parameters of that opaque type; only the
 unit's primitives can look at them), "gparams" (text of extra implicit binders, e.g. "{pval : Type}").
@@ -87,6 +97,27 @@ class _Dup(Exception):
 
 class _OffEnd(Unsupported):     # [srcloop] the fall-through end of a function that has a declared result was reached
     pass
+
+
+class _Retype(Exception):
+    """[srcrun] a local variable holds None on one path and a T (or an Optional[T]) on another: its type is
+    Optional[T]; translate() records that and translates the function again"""
+
+    def __init__(self, types):
+        Exception.__init__(self, "retype %r" % (types,))
+        self.types = types
+
+
+def _join(a, b):
+    """[srcrun] the Optional type two differently typed bindings of one variable share, or None"""
+    if a == b:
+        return a
+    for x, y in ((a, b), (b, a)):
+        if x == NONE:
+            return y if y.kind == "opt" else pygal.Opt(y)
+        if x.kind == "opt" and x.arg == y:
+            return x
+    return None
 
 
 def names_used(stmts):
@@ -161,6 +192,17 @@ def out_types(outs, box, node, want=None):
         if ts is None:
             ts = b
         if b != ts:
+            # [srcrun] None on one path, a T on another: the variable is an Optional[T] (see _Retype)
+            joined = {}
+            for v, t1, t2 in zip(outs, ts, b):
+                if t1 != t2:
+                    j = _join(t1, t2)
+                    if j is None or j.kind != "opt":
+                        joined = None
+                        break
+                    joined[v] = j
+            if joined:
+                raise _Retype(joined)
             _bad("variables %r are re-bound with different types on different paths: %r / %r" % (outs, ts, b), node)
     return ts          # None: no path falls through
 
@@ -368,10 +410,31 @@ def tr_simple(fn, s, env, cont):
         g, t, mut = r
         if mut is not None:
             _bad("the None result of a mutating primitive is assigned", s)
+        cg, ct = coerce_local(fn, tgt.id, v, t, s)       # [srcrun] declared local types
+        if cg != v:
+            v2 = fn.fresh(tgt.id)
+            return "%s <~ lift %s ;;\nlet %s := %s in\n%s" % (v, g, v2, cg, cont(rebind(env, tgt.id, v2, ct)))
         c = cont(rebind(env, tgt.id, v, t))
         return "lift %s" % g if c == "next %s" % v else "%s <~ lift %s ;;\n%s" % (v, g, c)
     g, t = pure(fn, val, env)
+    g, t = coerce_local(fn, tgt.id, g, t, s)             # [srcrun] declared local types
     return "let %s := %s in\n%s" % (v, g, cont(rebind(env, tgt.id, v, t)))
+
+
+def coerce_local(fn, name, g, t, node):
+    """[srcrun] function spec key "locals": {name: Ty} - the declared type of a local variable (what a Python annotation
+    `x: Optional[T] = None` says).  Every assignment to such a name must produce the declared type; for a declared
+    Optional[T] the value None becomes `None` and a value of type T becomes `Some v`.  Names without a declaration
+    keep the type of the assigned expression (the behaviour before this key existed)."""
+    want = (fn.spec.get("locals") or {}).get(name)
+    if want is None or t == want:
+        return g, t
+    if want.kind == "opt":
+        if t == NONE:
+            return "(@None %s)" % paren(gty(want.arg)), want
+        if t == want.arg:
+            return "(Some %s)" % g, want
+    _bad("assignment of %r to the local %s declared as %r" % (t, name, want), node)
 
 
 def tr_if(fn, s, rest, env, k, live, live_rest):
@@ -419,25 +482,53 @@ def tr_try(fn, s, env, cont, live_rest):
         tpred = "(fun x => %s)" % " || ".join("%s x" % classes[path_of(c)] for c in h0.type.elts)
     else:
         tpred = None
-    if tpred is None and (len(s.handlers) != 1 or s.handlers[0].type is None or path_of(s.handlers[0].type) not in classes):
-        _bad("a try statement other than `try ... except %s [as e] ... [else ...]`" % " | ".join(sorted(classes)), s)
-    h = s.handlers[0]
-    pred = tpred if tpred is not None else classes[path_of(h.type)] if path_of(h.type) != "Exception" else None
+    # [srcrun] several except clauses (units that set Ext.multi_except and give every class a predicate, "Exception"
+    # included - its default predicate is the unit's `is_exception`): the first clause whose class matches handles the
+    # exception, what a handler raises is not seen by the other clauses ->
+    #   try_except_on (fun x => P1 x || P2 x) A (fun x => if P1 x then H1 else H2)
+    many = len(s.handlers) > 1 and getattr(fn.ext, "multi_except", False)
+    if tpred is not None:
+        pred, preds = tpred, [tpred]
+    else:
+        if not s.handlers or (len(s.handlers) != 1 and not many) \
+                or any(h.type is None or path_of(h.type) not in classes for h in s.handlers):
+            _bad("a try statement other than `try ... except %s [as e] ... [else ...]`" % " | ".join(sorted(classes)), s)
+        preds = [classes[path_of(h.type)] if path_of(h.type) != "Exception" else None for h in s.handlers]
+        if many:
+            preds = [p or "is_exception" for p in preds]
+            pred = "(fun x => %s)" % " || ".join("%s x" % p for p in preds)
+        else:
+            pred = preds[0]
     on = "" if pred is None else "_on %s" % pred
-    if h.name and h.name in env:
-        _bad("the except clause's name shadows a local variable (Python unbinds it after the handler)", h)
-    outs = sorted((assigned(fn, s.body) | assigned(fn, h.body) | assigned(fn, s.orelse)) & live_rest)
+    for h in s.handlers:
+        if h.name and h.name in env:
+            _bad("the except clause's name shadows a local variable (Python unbinds it after the handler)", h)
+    hbodies = [st for h in s.handlers for st in h.body]
+    outs = sorted((assigned(fn, s.body) | assigned(fn, hbodies) | assigned(fn, s.orelse)) & live_rest)
     box = []
     kk = next_of(outs, box, s)
-    xv = fn.fresh(h.name or "exc")
-    henv = env
-    for v in assigned(fn, s.body):          # the handler must not look at what the try-suite (re-)bound
-        henv = {p: x for p, x in rebind(henv, v, None, NONE).items() if p != v}
-    henv = dict(henv)
-    henv["__exc"] = (xv, h.name)
-    if h.name:
-        henv = rebind(henv, h.name, xv, fn.ext.exc_type)
-    h_text = tr_block(fn, h.body, henv, kk, live_rest)
+    xv = fn.fresh(s.handlers[0].name or "exc")
+    # [srcrun] a variable whose only assignment in the try-suite is its LAST statement (a plain `v = e`) still has its
+    # old binding whenever a handler runs: the store to a local cannot fail, so an exception means the assignment did
+    # not happen.  Every other variable the try-suite (re-)binds is invisible to the handlers, as before.
+    late = set()
+    last = s.body[-1]
+    if isinstance(last, ast.Assign) and len(last.targets) == 1 and isinstance(last.targets[0], ast.Name) \
+            and last.targets[0].id not in assigned(fn, s.body[:-1]):
+        late.add(last.targets[0].id)
+    henv0 = env
+    for v in assigned(fn, s.body) - late:   # the handler must not look at what the try-suite (re-)bound
+        henv0 = {p: x for p, x in rebind(henv0, v, None, NONE).items() if p != v}
+    h_texts = []
+    for h in s.handlers:
+        henv = dict(henv0)
+        henv["__exc"] = (xv, h.name)
+        if h.name:
+            henv = rebind(henv, h.name, xv, fn.ext.exc_type)
+        h_texts.append(tr_block(fn, h.body, henv, kk, live_rest))
+    h_text = h_texts[-1]
+    for p, t in reversed(list(zip(preds[:-1], h_texts[:-1]))):
+        h_text = "(if %s %s then\n%s\nelse\n%s)" % (p, xv, t, h_text)
     if not s.orelse:
         b_text = tr_block(fn, s.body, env, kk, live_rest)
         text = "try_except%s (\n%s)\n(fun %s =>\n%s)" % (on, b_text, xv, h_text)
@@ -636,22 +727,32 @@ def translate(repo, spec):
             if n is not nd and isinstance(n, (ast.FunctionDef, ast.AsyncFunctionDef, ast.Lambda, ast.ClassDef, ast.Global,
                                               ast.Nonlocal, ast.Yield, ast.YieldFrom, ast.NamedExpr)):
                 _bad("%s inside the function" % type(n).__name__, n)
-        fn = pygal.Fn(unit, fs)
-        env = dict(spec.get("globals", {}))
         params = list(fs["params"]) + star
-        stmts = nd.body
+        rt = fs.get("ret")
+        stmts, extra = nd.body, []
         if fs.get("body_of"):                            # [srcloop] translate a part of the function (see the docstring)
             stmts, extra = fs["body_of"](nd)
-            params += list(extra)
-        for p, t in params:
-            env[p] = (p, t)
-        rt = fs.get("ret")
-        if rt is None:
-            body = tr_block(fn, stmts, env, lambda e: "next tt", set())
-        else:       # every path must end in `return e` / `raise`: the type of the fall-through end is empty
-            def off_end(e, nd=nd):
-                raise _OffEnd("%s may fall off its end (it has a declared result) (line %d)" % (nd.name, nd.lineno))
-            body = tr_block(fn, stmts, env, off_end, set())
+        params += list(extra)
+        inferred = dict(fs.get("locals") or {})      # [srcrun] declared + inferred Optional locals (see _Retype)
+        for _round in range(32):
+            fn = pygal.Fn(unit, dict(fs, locals=inferred))
+            env = dict(spec.get("globals", {}))
+            for p, t in params:
+                env[p] = (p, t)
+            try:
+                if rt is None:
+                    body = tr_block(fn, stmts, env, lambda e: "next tt", set())
+                else:   # every path must end in `return e` / `raise`: the type of the fall-through end is empty
+                    def off_end(e, nd=nd):
+                        raise _OffEnd("%s may fall off its end (it has a declared result) (line %d)" % (nd.name, nd.lineno))
+                    body = tr_block(fn, stmts, env, off_end, set())
+                break
+            except _Retype as r:
+                if any(inferred.get(v) == t for v, t in r.types.items()):
+                    _bad("internal: type inference of locals %r does not converge" % sorted(r.types), nd)
+                inferred.update(r.types)
+        else:
+            _bad("internal: type inference of locals does not converge", nd)
         ps = " ".join(([fs["gparams"]] if fs.get("gparams") else []) + ["(%s : %s)" % (p, gty(t)) for p, t in params])
         gname = fs.get("gname", nd.name)
         kw, struct = ("Fixpoint", " {struct %s}" % fs["fix"]) if fs.get("fix") else ("Definition", "")     # [srcgate]
